@@ -1,6 +1,7 @@
 import SamVerif.Model.FmtFull
 import SamVerif.Model.FmtPat
 import SamVerif.Model.FmtLists
+import SamVerif.Model.FmtDoc
 import Driver.C08Legacy
 import Driver.Util
 /-! Protocol `fmt-expr` (C08), model side.
@@ -8,6 +9,10 @@ import Driver.Util
 model's `mergeMinInt`), `parseE` → T0, `printE` → token sequence, re-lex, `parseE` → T1, and whether `regroup T0 = T0` (printed as `rt=`).
 `S <width> <hex text>`: a single string-literal token through `parseStr` / `printStr`.
 Answers: `<T0>;<tokens>;<T1|rerr>;rt=<0|1>` or `perr`. The width is irrelevant to the model (token level).
+`X <width> <hex text>`: the *document* of the parsed expression (`Model/FmtDoc.lean`, `docOf`) in the
+prefix notation of the printer hook, whether all leaf documents satisfy `Leaves.Ok` (`agreeB`), the
+characters of `printE`, and the model's own layout `prettyPrint width (docOf e)` (`Model/Doc.lean`):
+`<T0>;<doc>;lv=<ok|bad>;<hex chars>;<hex layout>` or `perr`.
 
 Opaque units of the model and the concrete shapes the driver recognises for them:
 `post`   `. name`  |  `( w , … )` directly after something that ends an expression (call with atom arguments)
@@ -88,7 +93,21 @@ structure Entry where
   text : String
   pre : String
   suf : String
+  /-- the documents of the unit (`Leaves` of `Model/FmtDoc.lean`): atom `[d]`, member `[name, targs]`,
+  pattern `[d]`, `let` `[pattern, annotation]`, lambda `[parameters]`. -/
+  leaf : List SamVerif.Doc.Doc := []
   deriving BEq
+
+section LeafDocs
+open SamVerif.Doc (Doc concatV)
+def sdoc (s : String) : Doc := .nstext s.toList
+def tdoc (s : String) : Doc := .text s.toList
+/-- `comma_sep_list` without ending comments. -/
+def commaSepD : List Doc → Doc
+  | [] => .nil
+  | [d] => d
+  | d :: rest => concatV [d, tdoc ",", .line, commaSepD rest]
+end LeafDocs
 
 abbrev Tab := List Entry
 
@@ -117,6 +136,9 @@ def lambdaParams : List String → Option (List (String × Option String) × Lis
   | _ => none
 
 def isTypeWord (s : String) : Bool := s == "int" || s == "bool" || s == "unit" || isUpperId s
+/-- `annotation_to_doc` of a one-word type: primitive keyword, or an identifier without type arguments
+(`Concat(name, optional_targs(None))`). -/
+def tyDoc (t : String) : SamVerif.Doc.Doc := if isUpperId t then .concat (sdoc t) .nil else tdoc t
 
 /-! ### `P` lines: patterns through `Model/FmtPat.lean` -/
 section Patterns
@@ -165,6 +187,31 @@ partial def dumpFs (tab : List String) : Fields → String
   | .consA f o rest => s!" ({tab.getD f "?"} as {dumpO tab o})" ++ dumpFs tab rest
 end
 
+/-! `matching_pattern_to_document` (no comments). -/
+mutual
+partial def docP (tab : List String) : Pat → SamVerif.Doc.Doc
+  | .id n => sdoc (tab.getD n "?")
+  | .wild => tdoc "_"
+  | .variant t => sdoc (tab.getD t "?")
+  | .variantT t ps => SamVerif.Doc.concatV [sdoc (tab.getD t "?"), SamVerif.FmtDoc.parenD (commaSepD (docPs tab ps))]
+  | .tuple ps => SamVerif.FmtDoc.parenD (commaSepD (docPs tab ps))
+  | .obj fs => SamVerif.FmtDoc.bracesD (commaSepD (docFs tab fs))
+partial def docO (tab : List String) : OPat → SamVerif.Doc.Doc
+  | .one p => docP tab p
+  | .alt p rest => SamVerif.Doc.concatV (docP tab p :: docAlts tab rest)
+partial def docAlts (tab : List String) : OPat → List SamVerif.Doc.Doc
+  | .one p => [tdoc " | ", docP tab p]
+  | .alt p rest => tdoc " | " :: docP tab p :: docAlts tab rest
+partial def docPs (tab : List String) : Pats → List SamVerif.Doc.Doc
+  | .one o => [docO tab o]
+  | .cons o rest => docO tab o :: docPs tab rest
+partial def docFs (tab : List String) : Fields → List SamVerif.Doc.Doc
+  | .oneS f => [sdoc (tab.getD f "?")]
+  | .oneA f o => [SamVerif.Doc.concatV [sdoc (tab.getD f "?"), tdoc " as ", docO tab o]]
+  | .consS f rest => sdoc (tab.getD f "?") :: docFs tab rest
+  | .consA f o rest => SamVerif.Doc.concatV [sdoc (tab.getD f "?"), tdoc " as ", docO tab o] :: docFs tab rest
+end
+
 /-- the lexer splits `||`; inside patterns two bars never meet, so `||` is not a pattern token. -/
 def stepP (text : String) : String :=
   match lexWords text.toList [] with
@@ -191,7 +238,7 @@ partial def group : List String → List Tok → Tab → Option (List Tok × Tab
     let push (t : Tok) (r : List String) (tb : Tab) := group r (acc ++ [t]) tb
     -- match-case patterns: anything the pattern model reads from here that is followed by `->`, when
     -- it starts with a tag, `_` or `{` (a `(` … `) ->` is taken for a lambda parameter list)
-    let patOf : Option (String × String × List String) :=
+    let patOf : Option (String × String × SamVerif.Doc.Doc × List String) :=
       if isUpperId w || w == "_" || w == "{" then
         let all := w :: rest
         let (pts, ptab) := ptoks all
@@ -199,13 +246,13 @@ partial def group : List String → List Tok → Tab → Option (List Tok × Tab
         | some (o, remToks) =>
           match all.drop (all.length - remToks.length) with
           | "->" :: r =>
-            some (" ".intercalate ((SamVerif.FmtPat.printO o).map (ptokText ptab)) ++ " ->", dumpO ptab o, r)
+            some (" ".intercalate ((SamVerif.FmtPat.printO o).map (ptokText ptab)) ++ " ->", dumpO ptab o, docO ptab o, r)
           | _ => none
         | none => none
       else none
     match patOf with
-    | some (text, dmp, r) =>
-      let (tb, i) := intern tab ⟨text, dmp, ""⟩
+    | some (text, dmp, pd, r) =>
+      let (tb, i) := intern tab ⟨text, dmp, "", [pd]⟩
       push (.pat i) r tb
     | none =>
     if w == "let" then
@@ -225,7 +272,8 @@ partial def group : List String → List Tok → Tab → Option (List Tok × Tab
           let tyText := if tyWords.isEmpty then "" else " : " ++ tyWords.head!
           let tyDump := if tyWords.isEmpty then "" else
             " : " ++ (if isUpperId tyWords.head! then s!"(tid {tyWords.head!})" else tyWords.head!)
-          let (tb, i) := intern tab ⟨s!"let {ptext}{tyText} =", s!"(let {dumpO ptab o}{tyDump} ", ")"⟩
+          let annotD : SamVerif.Doc.Doc := if tyWords.isEmpty then .nil else .concat (tdoc ": ") (tyDoc tyWords.head!)
+          let (tb, i) := intern tab ⟨s!"let {ptext}{tyText} =", s!"(let {dumpO ptab o}{tyDump} ", ")", [docO ptab o, annotD]⟩
           push (.letK i) r tb
         | _ => none
       | _ => none
@@ -244,7 +292,10 @@ partial def group : List String → List Tok → Tab → Option (List Tok × Tab
         let pdmp := fun (p : String × Option String) => match p.2 with
           | some t => s!" ({p.1} : {if isUpperId t then s!"(tid {t})" else t})" | none => s!" ({p.1})"
         let (tb, i) := intern tab ⟨"( " ++ " , ".intercalate (ps.map ptxt) ++ (if ps.isEmpty then ") ->" else " ) ->"),
-          "(lambda (params" ++ String.join (ps.map pdmp) ++ ") ", ")"⟩
+          "(lambda (params" ++ String.join (ps.map pdmp) ++ ") ", ")",
+          [commaSepD (ps.map fun (p : String × Option String) => match p.2 with
+            | some t => SamVerif.Doc.concatV [sdoc p.1, tdoc ": ", tyDoc t]
+            | none => sdoc p.1)]⟩
         push (.lam i) r tb
       | _ => push .lp rest tab
     else if w == "." then
@@ -252,12 +303,13 @@ partial def group : List String → List Tok → Tab → Option (List Tok × Tab
       | n :: "<" :: t :: ">" :: r =>
         if isWordAtom n && !isNum n && isTypeWord t then
           let td := if isUpperId t then s!"(tid {t})" else t
-          let (tb, i) := intern tab ⟨s!". {n} < {t} >", "(. ", s!" {n} (targs {td}))"⟩
+          let (tb, i) := intern tab ⟨s!". {n} < {t} >", "(. ", s!" {n} (targs {td}))",
+            [sdoc n, SamVerif.Doc.bracketFlexible ['<'] .lineNil (tyDoc t) ['>']]⟩
           push (.post i false) r tb
         else none
       | n :: r =>
         if isWordAtom n && !isNum n then
-          let (tb, i) := intern tab ⟨s!". {n}", "(. ", s!" {n})"⟩
+          let (tb, i) := intern tab ⟨s!". {n}", "(. ", s!" {n})", [sdoc n, .nil]⟩
           push (.post i true) r tb
         else none
       | _ => none
@@ -267,11 +319,11 @@ partial def group : List String → List Tok → Tab → Option (List Tok × Tab
       | some o => push (.op o) rest tab
       | none =>
         if isWordAtom w then
-          let (tb, i) := intern tab ⟨w, w, ""⟩
+          let (tb, i) := intern tab ⟨w, w, "", [if w == "true" || w == "false" then tdoc w else sdoc w]⟩
           push (.atom i) rest tb
         else none
 
-def ent (tab : Tab) (i : Nat) : Entry := (tab[i]?).getD ⟨"?", "?", "?"⟩
+def ent (tab : Tab) (i : Nat) : Entry := (tab[i]?).getD ⟨"?", "?", "?", []⟩
 
 def tokText (tab : Tab) : Tok → String
   | .lp => "(" | .rp => ")" | .bang => "!" | .comma => "," | .lb => "{" | .rb => "}"
@@ -341,6 +393,43 @@ def stepE (text : String) : String :=
 
 def hexOfString (s : String) : String := hexOfBytes s.toUTF8.toList
 
+/-! ### `X` lines: the document of the expression (`Model/FmtDoc.lean`) -/
+section DocStep
+open SamVerif.Doc SamVerif.FmtDoc
+
+def leavesOf (tab : Tab) : Leaves :=
+  let get (i j : Nat) : Doc := ((ent tab i).leaf)[j]?.getD .nil
+  ⟨fun a => get a 0, fun p => get p 0, fun p => get p 1, fun k => get k 0, fun k => get k 0,
+   fun k => get k 1, fun k => get k 0⟩
+
+def hexStr (s : List Char) : String := if s.isEmpty then "-" else hexOfString (String.ofList s)
+
+/-- the prefix notation of `samlang_printer::verif_hooks` (`dump_into`). -/
+partial def dumpDoc : Doc → Array String → Array String
+  | .nil, out => out.push "N"
+  | .concat a b, out => dumpDoc b (dumpDoc a (out.push "C"))
+  | .nest n d, out => dumpDoc d ((out.push "I").push (toString n))
+  | .text s, out => (out.push "T").push (hexStr s)
+  | .nstext s, out => (out.push "S").push (hexStr s)
+  | .line, out => out.push "L"
+  | .lineNil, out => out.push "LN"
+  | .lineHard, out => out.push "LH"
+  | .union a b, out => dumpDoc b (dumpDoc a (out.push "U"))
+
+def stepX (width : Nat) (text : String) : String :=
+  match lexAll text with
+  | none => "perr"
+  | some (ts, tab) =>
+    match parseExpr ts with
+    | none => "perr"
+    | some e =>
+      let L := leavesOf tab
+      let d := docOf L e
+      let lv := tab.all fun en => en.leaf.all (agreeB textKey)
+      let cs := chars L (printE e)
+      s!"{dump tab e};{" ".intercalate (dumpDoc d #[]).toList};lv={if lv then "ok" else "bad"};{hexStr cs};{hexStr (prettyPrint width d)}"
+end DocStep
+
 def stepS (text : String) : String :=
   let cs := text.trimAscii.toString.toList
   match lexStr cs with
@@ -360,6 +449,7 @@ def step (_ : Unit) (line : String) : Unit × String :=
   match words line with
   | ["E", _, h] => ((), stepE (textOfHex h))
   | ["S", _, h] => ((), stepS (textOfHex h))
+  | ["X", w, h] => ((), stepX w.toNat! (textOfHex h))
   | ["P", _, h] => ((), stepP (textOfHex h))
   | ["T", kind] =>
     -- `trail` stream: the model's two tables for one list kind
